@@ -23,6 +23,9 @@ n > 0 only (for n == 0 the callback is not called: trivially nothing is touched,
 from vx.api import Unit, Fn, Copy, Raw, Group
 from vx.units import iobuffers as IO
 from vx.units import virtiofsw as VW
+from vx import ovlrules as R
+from vx import extract as X
+import re
 
 T = 'src/transport/mod.rs'
 V = 'src/transport/virtiofs/mod.rs'
@@ -117,6 +120,86 @@ pub proof fn lemma_bytes_at_concat(a: Seq<int>, b: Seq<int>)
 { }
 '''
 
+# ---- vm-memory guest memory and virtio-queue descriptor chains: only what Reader::from_descriptor_chain / VirtioFsWriter::new use.
+# ASSUMED, written from the crates' text (vm-memory 0.17.1 guest_memory.rs / region.rs / address.rs, virtio-queue 0.17.0 chain.rs / desc/split.rs)
+MODEL4 = r'''
+use std::ops::Deref;
+#[derive(Clone, Copy)] pub struct GuestAddress(pub u64);
+impl GuestAddress {      // trait Address (impl_address_ops!): raw_value = the number, checked_sub = u64::checked_sub
+    pub fn raw_value(&self) -> (r: u64) ensures r == self.0 { self.0 }
+    pub fn checked_sub(&self, other: u64) -> (r: Option<GuestAddress>)
+        ensures self.0 >= other ==> r is Some && r->Some_0.0 == self.0 - other, self.0 < other ==> r is None
+    { if self.0 >= other { Some(GuestAddress(self.0 - other)) } else { None } }
+}
+#[derive(Clone, Copy)] pub struct MemoryRegionAddress(pub u64);
+#[verifier::external_body] pub struct GuestMemoryError { _p: u8 }
+// a region: guest range [start, start + size) mapped at host address host_base; get_slice(offset, count) is Ok only inside the mapping
+// (MmapRegion::get_slice -> compute_end_offset) and then denotes host_base + offset, count bytes
+pub trait GuestMemoryRegion {
+    type B: BitmapSlice;      // real: `type B: Bitmap`, slices carry `BS<'a, B>` (SIG abstraction: the lifetime-indexed slice type is B itself)
+    spec fn start(&self) -> u64;
+    spec fn size(&self) -> nat;
+    spec fn host_base(&self) -> int;
+    fn start_addr(&self) -> (r: GuestAddress) ensures r.0 == self.start();
+    fn get_slice(&self, offset: MemoryRegionAddress, count: usize) -> (r: core::result::Result<VolatileSlice<'_, Self::B>, GuestMemoryError>)
+        ensures r is Ok ==> offset.0 + count <= self.size() && r->Ok_0.addr() == self.host_base() + offset.0 && r->Ok_0.slen() == count;
+}
+// guest memory: `find_region(a)` = the region containing a ("Returns the region containing the specified address or None").
+// `host_of(a)` / `room(a)`: the host address guest address a is mapped at, and how many bytes of its region lie at and behind it.
+pub trait GuestMemory {
+    type R: GuestMemoryRegion;
+    spec fn host_of(&self, a: u64) -> int;
+    spec fn room(&self, a: u64) -> nat;
+    fn find_region(&self, addr: GuestAddress) -> (r: Option<&Self::R>)
+        ensures r is Some ==> r->Some_0.start() <= addr.0 && addr.0 - r->Some_0.start() <= r->Some_0.size()
+                    && self.host_of(addr.0) == r->Some_0.host_base() + (addr.0 - r->Some_0.start())
+                    && self.room(addr.0) == r->Some_0.size() - (addr.0 - r->Some_0.start());
+}
+pub type MS<T> = <<T as GuestMemory>::R as GuestMemoryRegion>::B;
+// virtio_queue::desc::split::Descriptor (addr, len, flags, next): only addr() and len() are read here
+#[derive(Clone, Copy)] pub struct Descriptor { pub a: u64, pub l: u32 }
+impl Descriptor {
+    pub fn addr(&self) -> (r: GuestAddress) ensures r.0 == self.a { GuestAddress(self.a) }
+    pub fn len(&self) -> (r: u32) ensures r == self.l { self.l }
+}
+// DescriptorChain::readable() / writable(): "an iterator that only yields the readable (writable) descriptors in the chain" - in chain order
+#[verifier::external_body] #[verifier::reject_recursive_types(M)] pub struct DescriptorChain<M> { _p: PhantomData<M> }
+#[verifier::external_body] #[verifier::reject_recursive_types(M)] pub struct DescriptorChainRwIter<M> { _p: PhantomData<M> }
+impl<M> DescriptorChain<M> {
+    pub uninterp spec fn readable_descs(&self) -> Seq<Descriptor>;
+    pub uninterp spec fn writable_descs(&self) -> Seq<Descriptor>;
+    #[verifier::external_body] pub fn readable(self) -> (r: DescriptorChainRwIter<M>) ensures r.rem() == self.readable_descs() { unimplemented!() }
+    #[verifier::external_body] pub fn writable(self) -> (r: DescriptorChainRwIter<M>) ensures r.rem() == self.writable_descs() { unimplemented!() }
+}
+impl<M> DescriptorChainRwIter<M> {
+    pub uninterp spec fn rem(&self) -> Seq<Descriptor>;      // what it will still yield
+    #[verifier::external_body] pub fn next(&mut self) -> (r: Option<Descriptor>)
+        ensures old(self).rem().len() == 0 ==> r is None && final(self).rem() == old(self).rem(),
+                old(self).rem().len() > 0 ==> r == Some(old(self).rem()[0]) && final(self).rem() == old(self).rem().skip(1),
+    { unimplemented!() }
+}
+// `<I as IntoIterator>::into_iter` of an Iterator is the identity (rule R28)
+pub fn vx_into_iter<I>(i: I) -> (r: I) ensures r == i { i }
+// ---- specification: the addresses a list of descriptors denotes, in order
+pub open spec fn chain_cells<T: GuestMemory>(mem: &T, ds: Seq<Descriptor>) -> Seq<int> decreases ds.len() {
+    if ds.len() == 0 { Seq::<int>::empty() } else { range(mem.host_of(ds[0].a), ds[0].l as nat) + chain_cells(mem, ds.skip(1)) }
+}
+pub proof fn lemma_chain_push<T: GuestMemory>(mem: &T, ds: Seq<Descriptor>, d: Descriptor)
+    ensures chain_cells(mem, ds.push(d)) =~= chain_cells(mem, ds) + range(mem.host_of(d.a), d.l as nat)
+    decreases ds.len()
+{
+    if ds.len() == 0 { assert(ds.push(d).skip(1) =~= Seq::<Descriptor>::empty()); reveal_with_fuel(chain_cells, 2); }
+    else { assert(ds.push(d).skip(1) =~= ds.skip(1).push(d)); lemma_chain_push(mem, ds.skip(1), d); }
+}
+pub proof fn lemma_cells_push<'a, S>(b: Seq<VolatileSlice<'a, S>>, v: VolatileSlice<'a, S>)
+    ensures cells(b.push(v)) =~= cells(b) + range(v.addr(), v.slen())
+{
+    assert(b.push(v) =~= b + seq![v]);
+    lemma_cells_concat(b, seq![v]);
+    lemma_cells_one(v);
+}
+'''
+
 OLDW = VW.OLDW
 NO_OVF = VW.NO_OVF
 UNMARKED = IO.UNMARKED
@@ -163,20 +246,21 @@ def reader_fns(tok):
                     rem@ =~= dst0.skip(total as int), // [C04.reader.read.loop.rest_untouched]
                     bufs@.take(bufs@.len() as int) =~= bufs@,
             {
-                proof { lemma_fcells_take_next(bufs@, it.index@); }
-                let ghost g0 = gr.read;'''),
-                           ('total += copy_len;', 'after', 'proof { lemma_bytes_at_concat(g0, range(buf.addr(), copy_len as nat)); }'),
+                proof { lemma_fcells_take_next(bufs@, it.index@); }'''),
+                           # the closure-local log at the end: every address of the offered prefix was read exactly once, in order, and nothing else
+                           ('Ok(total)', 'before', 'proof { assert(gr.read =~= fcells(bufs@).subrange(0, total as int)); } // [C04.reader.read.each_address_once_in_order]'),
                            ]))
     SR = "impl<S: BitmapSlice> Reader<'_, S>"
     SZ = 'T::ssize()'
     read_obj = tok(Fn(T, SR, 'read_obj', props=['C04'], canary=True,
                       ensures=['%s // [C17.read_obj.unmarked]' % UNMARKED] + exact_contract('read_obj', SZ, 'r->Ok_0.sbytes()'),
-                      body_resub=[(r'unsafe\s*\{\s*::std::slice::from_raw_parts_mut\((\w+)\.as_mut_ptr\(\)\s*as\s*\*mut\s+u8,\s*(size_of::<T>\(\))\)\s*\}',
+                      body_resub=[(r'unsafe\s*\{\s*::std::slice::from_raw_parts_mut\((\w+)\.as_mut_ptr\(\)\s*as\s*\*mut\s+u8,\s*([^{};]+?)\)\s*\}',
                                    r'vx_uninit_bytes_mut(&mut \1, \2)',
                                    'byte window over a MaybeUninit<T> -> model call (in bounds iff n <= size_of::<T>(); stores through the window are the storage contents)')],
                       splices=[('^', 'after', 'broadcast use axiom_mut_slice_len, axiom_sbytes_len;')]),
-                   ['read_exact'])
-    return [read, raw_with_canary('read_exact', std_read_exact, ['C04']), read_obj]
+                   ['read_exact', 'read'])
+    fdc = chain_fn("impl<'a> Reader<'a>", 'from_descriptor_chain', 'readable', 'reader.from_descriptor_chain')
+    return [read, raw_with_canary('read_exact', std_read_exact, ['C04']), read_obj, fdc]
 
 
 def moved_contract(op, total):
@@ -247,8 +331,9 @@ def std_write_all(canary=False):
 ''' % ('__canary' if canary else '', _clauses(ens), MOVED_ENTRY, moved_inv('(data@.len() - buf@.len())', 'C17.vwrite_all.loop'), moved_step('k'))
 
 
-def writer_fns(P):
+def writer_fns(P, root):
     tok = P['tok']
+    has_sum = re.search(r'\.\s*fold\s*\(', X.mask(X.Source(root, V).find_fn("impl<S: BitmapSlice> io::Write for VirtioFsWriter<'_, S>", 'write_vectored')['body'])) is not None
     SW = "impl<'a, S: BitmapSlice> VirtioFsWriter<'a, S>"
     SWIO = "impl<S: BitmapSlice> io::Write for VirtioFsWriter<'_, S>"
     assumed = [VW.as_external(f) for f in P['writer'] if f.name in ('check_available_space', 'write')]      # proved in unit virtiofsw (same clause text)
@@ -270,11 +355,47 @@ def writer_fns(P):
         { proof { lemma_ios_take_next(bufs@, it.index@ as int); } ''' + moved_step('(count as int)'))]),
              ['write'])
     wv.rules = wv.rules + ('R40', 'R42')
+    if not has_sum:      # without the up-front sum there is no fold loop to annotate: the CONTRACT is the same (and [exceeds_fails] then fails)
+        wv.splices = [sp for sp in wv.splices if sp[0] != 'for x in bufs.iter() {']
     wo = tok(Fn(V, SW, 'write_obj', props=['C17'], canary=True,
                 ensures=moved_contract('vwrite_obj', 'T::ssize()'),
                 splices=[('^', 'after', 'broadcast use axiom_sbytes_len;')]),
              ['write_all'])
-    return assumed + [wv, raw_with_canary('write_all', std_write_all, ['C17']), wo]
+    new = chain_fn("impl<'a> VirtioFsWriter<'a>", 'new', 'writable', 'vnew')
+    return assumed + [wv, raw_with_canary('write_all', std_write_all, ['C17']), wo, new]
+
+
+def chain_fn(scope, name, which, op):
+    """Reader::from_descriptor_chain / VirtioFsWriter::new: the same text up to readable() / writable() and the struct built"""
+    DS = 'desc_chain.%s_descs()' % which
+    B = 'r->Ok_0.buffers.buffers@'
+    f = Fn(V, scope, name, props=['C04'], canary=True,
+           sig_subst=[("MS<'a, M::Target>", 'MS<M::Target>')],      # the alias without its lifetime parameter (see GuestMemoryRegion::B in the model)
+           ensures=[
+               # exactly the readable (writable) descriptors, each as ONE slice at the host address of its guest address, in chain order; nothing consumed yet
+               'r is Ok ==> r->Ok_0.buffers.bytes_consumed == 0 && cells(%s) =~= chain_cells(mem, %s) // [C04.%s.exactly_the_descriptors_in_order]' % (B, DS, op),
+               '''r is Ok ==> %s.len() == %s.len() && (forall|i: int| 0 <= i < %s.len() ==> #[trigger] %s[i].addr() == mem.host_of(%s[i].a) && %s[i].slen() == %s[i].l
+                        && %s[i].l <= mem.room(%s[i].a)) // [C04.%s.one_slice_per_descriptor_inside_its_region]''' % (B, DS, DS, B, DS, B, DS, DS, DS, op),
+               # the chain-length invariant every err_unmarked / never_fails clause assumes: the total length fits a usize
+               'r is Ok ==> 0 + cells(%s).len() <= usize::MAX // [C04.%s.length_fits]' % (B, op)],
+           splices=[('let mut buffers = VecDeque::with_capacity(64);', 'after', 'let ghost ds = %s;' % DS)])
+    INV = '''
+            invariant
+                buffers@.len() <= ds.len(), d_it.rem() =~= ds.skip(buffers@.len() as int),
+                total_len == chain_cells(mem, ds.take(buffers@.len() as int)).len(), // [C04.%(op)s.loop.length]
+                cells(buffers@) =~= chain_cells(mem, ds.take(buffers@.len() as int)), // [C04.%(op)s.loop.cells]
+                forall|i: int| 0 <= i < buffers@.len() ==> #[trigger] buffers@[i].addr() == mem.host_of(ds[i].a) && buffers@[i].slen() == ds[i].l && ds[i].l <= mem.room(ds[i].a), // [C04.%(op)s.loop.slices]
+            ensures
+                buffers@.len() == ds.len(), // [C04.%(op)s.loop.every_descriptor]
+            decreases d_it.rem().len(),
+        ''' % dict(op=op)
+    PRE = ''' let ghost b0 = buffers@; proof { assert(ds.take(b0.len() as int + 1) =~= ds.take(b0.len() as int).push(ds[b0.len() as int])); lemma_chain_push(mem, ds.take(b0.len() as int), ds[b0.len() as int]);
+                assert forall|v: VolatileSlice<'a, MS<M::Target>>| #[trigger] cells(b0.push(v)) =~= cells(b0) + range(v.addr(), v.slen()) by { lemma_cells_push(b0, v); }
+                assert forall|v: VolatileSlice<'a, MS<M::Target>>, i: int| 0 <= i <= b0.len() ==> #[trigger] b0.push(v)[i] == (if i < b0.len() { b0[i] } else { v }) by { } }'''
+    f.body_hooks = [R.r28_for_owned(r'\bfor\s+(desc)\s+in\s+(desc_chain\.(?:readable|writable)\(\))\s*\{', 'vx_into_iter', 'd_it', header_extra=INV, body_prefix=PRE,
+                                    mid=' proof { assert(ds.skip(0) =~= ds); assert(ds.take(0) =~= Seq::<Descriptor>::empty()); }',
+                                    after='proof { assert(ds.take(ds.len() as int) =~= ds); }')]
+    return f
 
 
 def exact_contract(op, n, delivered):
@@ -369,15 +490,16 @@ def unit(root='/repo'):
         else:
             io_group.append(f)
     items = [
-        Raw(IO.MODEL),
+        Raw(IO.MODEL.replace('pub enum Error { DescriptorChainOverflow,', 'pub enum Error { FindMemoryRegion, GuestMemoryError(GuestMemoryError), DescriptorChainOverflow,')),      # + the two variants the chain constructors build
         Copy(T, r"struct IoBuffers<'a, S>", prefix='#[verifier::reject_recursive_types(S)]'),
         Copy(V, r"pub struct VirtioFsWriter<'a, S", subst=[('S = ()', 'S')], prefix='#[verifier::reject_recursive_types(S)]'),
         Copy(T, r"pub struct Reader<'a, S", subst=[('S = ()', 'S')], prefix='#[verifier::reject_recursive_types(S)]'),
         Raw(IO.SPEC),
         Raw(VW.MODEL2),
         Raw(MODEL3),
+        Raw(MODEL4),
         Group("impl<'a, S: BitmapSlice> IoBuffers<'a, S> {", io_group),
         Group("impl<'a, S: BitmapSlice> Reader<'a, S> {", reader_fns(tok)),
-        Group("impl<'a, S: BitmapSlice> VirtioFsWriter<'a, S> {", writer_fns(P)),
+        Group("impl<'a, S: BitmapSlice> VirtioFsWriter<'a, S> {", writer_fns(P, root)),
     ]
     return Unit('readerrd', items, preludes=['base.rs'])
